@@ -3,7 +3,7 @@
    used only for the names of error kinds in driver output) are mapped to OCaml's; N, Z, positive
    and nat stay Coq datatypes.  No Extract Constant / Extract Inductive of our own. *)
 From Coq Require Import ExtrOcamlBasic ExtrOcamlString.
-From Theo Require Import Base VMModel VMSpec VMCheck Tokens Errors Regex Lexer Scan SpecLex Gen_Lexer MacroExtract Grammar LR MacroApply Parser GenModel Compile.
+From Theo Require Import Base VMModel VMSpec VMCheck Tokens Errors Regex Lexer Scan SpecLex Gen_Lexer MacroExtract Grammar LR MacroApply Parser GenModel Compile RefSem.
 Extraction Language OCaml.
 Set Extraction KeepSingleton.
 Cd "extracted".
@@ -18,5 +18,6 @@ Separate Extraction
   Grammar.calculate_first_sets Grammar.add_rule Grammar.create_nt Grammar.empty_grammar Grammar.first
   MacroApply.apply_macros MacroApply.apply_macros_gen MacroApply.make_detector
   Parser.parse_tokens Parser.ntype_num GenModel.gen GenModel.gen_gen Compile.parse Compile.compile Compile.compile_budget
+  RefSem.run_ref RefSem.abstract_source
   LR.generate_tables LR.parse LR.hull LR.jump LR.elements.
 Cd "..".
